@@ -588,6 +588,43 @@ def macroEnv (base : Env) (defaults : List (Bytes × Val)) (params : List Bytes)
   let priv1 := defaults.foldl (fun (e : Env) kv => e.set kv.1 kv.2) base
   (params.zip args).foldl (fun (e : Env) pa => e.set pa.1 pa.2.v) priv1
 
+/-- `block.Super`: a bound method of the block record -/
+def superOf (part : Part) (v : Val) : Option (Nat × Bytes × Nat) :=
+  match part, v with
+  | .ident s _, .blockinfo fr name lvl => if s == b!"Super" then some (fr, name, lvl) else none
+  | _, _ => none
+
+/-- a Go method found by name on the value as it stands (before any dereference) -/
+def goMethodAt (part : Part) (v : Val) : Option (Bytes × Bool × GoSig) :=
+  match part with
+  | .ident s _ => (goMethodOf v s).map fun (viaNil, sig) => (s, viaNil, sig)
+  | _ => none
+
+/-- the receiver a method is run on -/
+def recvOf (v : Val) : Val := match v with | .ptr x => x | x => x
+
+/-- the pointer dereference before a step (`none`: a nil pointer) -/
+def derefStep (v : Val) : Option Val :=
+  match v with
+  | .ptr x => some x
+  | .nilptr => none
+  | .boxed .. => some (.struct b!"Value" [] [b!"val", b!"safe"])
+  | .cycleval .. => some (.struct b!"tagCycleValue" [] [b!"node", b!"value"])
+  | x => some x
+
+/-- the container's static element type is `*Value` (an in-template list literal) -/
+def typedElems (cv : Val) : Bool :=
+  match cv with
+  | .list ty _ | .arr ty _ => Bytes.hasSuffix ty valuePtrT
+  | _ => false
+
+/-- `current.Type() == typeOfValuePtr`: only a `*Value` whose static type is `*Value` (`direct`)
+    is unpacked, then down to its content -/
+def unboxDirect (v : Val) (safe direct : Bool) : Val × Bool :=
+  match v, direct with
+  | .boxed inner s, true => Val.unboxAll inner s
+  | _, _ => (v, safe)
+
 variable (T : LexTables) (cfg : SetCfg) (globals : Env)
 
 mutual
@@ -678,7 +715,7 @@ def resolve : Nat → List Part → XM V
       let v0 := match fr.priv.lookup name with
         | some v => v
         | none => (fr.pub.lookup name).getD .nil
-      let call0 := match first with | .ident _ c => c | .idx _ c => c | .sub _ c => c
+      let call0 := first.callArgs
       let r ← afterPart fuel v0 false call0 true
       match r with
       | none => pure (mkV .nil)
@@ -693,9 +730,9 @@ def afterPart : Nat → Val → Bool → Option (List Expr) → Bool → XM (Opt
     -- `current.Type() == typeOfValuePtr`: only a `*Value` whose static type is `*Value` (a context
     -- entry, an element of a `[]*Value`) is unpacked; one held in an interface-typed element or
     -- field stays a pointer to the `Value` struct
-    let (v, safe) := match v, direct with
-      | .boxed inner s, true => Val.unboxAll inner s
-      | _, _ => (v, safe)
+    let vs := unboxDirect v safe direct
+    let v := vs.1
+    let safe := vs.2
     if call.isSome || v.kind == .func then
       if v.kind != .func then xerr "is not a function"
       else
@@ -720,12 +757,8 @@ def resolveRest : Nat → List Part → Val → Bool → XM V
   | _, [], v, safe => pure ⟨v, safe⟩
   | fuel+1, part :: rest, v, safe => do
     -- method lookup before dereferencing
-    let method : Option (Nat × Bytes × Nat) := match part, v with
-      | .ident s _, .blockinfo fr name lvl => if s == b!"Super" then some (fr, name, lvl) else none
-      | _, _ => none
-    let goMethod : Option (Bytes × Bool × GoSig) := match part with
-      | .ident s _ => (goMethodOf v s).map fun (viaNil, sig) => (s, viaNil, sig)
-      | _ => none
+    let method := superOf part v
+    let goMethod := goMethodAt part v
     match method, goMethod with
     | some (fid, name, lvl), _ => do
       -- `block.Super`: a bound method, called right away
@@ -735,27 +768,22 @@ def resolveRest : Nat → List Part → Val → Bool → XM V
       -- a Go method: found before the pointer is followed, then called like any function
       if viaNil then pure (mkV .nil)   -- value-receiver method through a nil pointer
       else do
-        let call := match part with | .ident _ c => c | .idx _ c => c | .sub _ c => c
+        let call := part.callArgs
         let args ← evalList fuel (call.getD [])
         match goCheckCall sig args with
         | .error m => xerr m
         | .ok () =>
-          match goMethodRun mname (match v with | .ptr x => x | x => x) args with
+          match goMethodRun mname (recvOf v) args with
           | .error m => xerr m
           | .ok (rv, rs) =>
             if rv.kind == .invalid then pure (mkV .nil) else resolveRest fuel rest rv (rs.getD safe)
     | none, none =>
       -- pointer dereference
-      let deref : Option Val := match v with
-        | .ptr x => some x
-        | .nilptr => none
-        | .boxed .. => some (.struct b!"Value" [] [b!"val", b!"safe"])
-        | .cycleval .. => some (.struct b!"tagCycleValue" [] [b!"node", b!"value"])
-        | x => some x
+      let deref : Option Val := derefStep v
       match deref with
       | none => pure (mkV .nil)
       | some cv => do
-        let call := match part with | .ident _ c => c | .idx _ c => c | .sub _ c => c
+        let call := part.callArgs
         let next : Option Val ← (match part with
           | .idx i _ => liftStep (stepIndex cv i)
           | .ident s _ => liftStep (stepName cv s)
@@ -768,9 +796,7 @@ def resolveRest : Nat → List Part → Val → Bool → XM V
         match next with
         | none => pure (mkV .nil)
         | some nv => do
-          let typedElems := match cv with
-            | .list ty _ | .arr ty _ => Bytes.hasSuffix ty valuePtrT
-            | _ => false
+          let typedElems := typedElems cv
           let r ← afterPart fuel nv safe call typedElems
           match r with
           | none => pure (mkV .nil)
